@@ -11,6 +11,7 @@ def main(tier):
     widths = tables["properties_output_size"][2]
     consumers.gwb_dat(P, rep, widths)
     consumers.index_guards(P, rep, "gwb-dat")
+    consumers.dat_input_discipline(P, rep)
     consumers.number_parsers(P, rep)
     rep.assumptions.append("number formatting of the printed values is not decided")
     rep.explanation = ("Layout agreement between gwb-dat's request list, the library's width table, the offsets it prints and the "
